@@ -55,11 +55,17 @@ type Ctx struct {
 	P    *Program
 	rule *Rule
 	obs  []*Obligation
+	// keep, when set, restricts the obligations recorded to those whose construct it accepts
+	// (a rule that re-runs a slice of a larger rule under its own id)
+	keep func(construct string) bool
 }
 
 // ob records an obligation with an initial verdict.
 func (c *Ctx) ob(construct, pos string, v Verdict, detail string, witness ...string) *Obligation {
 	o := &Obligation{Rule: c.rule.ID, Construct: construct, Pos: pos, Verdict: v, Detail: detail, Witness: witness}
+	if c.keep != nil && !c.keep(construct) {
+		return o
+	}
 	c.obs = append(c.obs, o)
 	return o
 }
